@@ -62,6 +62,13 @@ var propSpecs = map[string]*PropSpec{
 		TrustedBase: []string{"sync.RWMutex gives mutual exclusion: each operation's effect lies in one critical section, so the sequential contracts describe a linearisation (standard argument, not machine-checked); interleavings themselves are not explored", "Go's range over a map visits every key present exactly once (engine's map-range model)", "time.Now is monotone (ghost clock); time.ParseDuration of the default string is the default lifetime", "the eviction listener is read once per operation (watchingEvictions); a listener registered in between is not covered"},
 		Extra:       c28Extra,
 	},
+	"C39": {
+		Patterns:    []string{"./..."},
+		Level:       "proof",
+		Explanation: "assets.AssetsHandler, Loader, readAssetRange, readAssetFile, normalizeAssetPath and the asset cache (lookupCachedAsset, cacheAsset, normalizeCachePath, FlushAssetCache) are under contract in safe mode: every index, slice and make in bounds for every Range header and file size; a 206 reply's Content-Range is (start, start+len(body)-1, total size) with the body exactly that many bytes; every file-system call receives a path that lies lexically under the asset root (or the fixed refusal name); a cache hit returns the bytes stored for exactly the requested name",
+		TrustedBase: []string{"(*os.File).ReadAt fills the buffer when the range lies inside the file; os.Stat reports the size of the file that is then read (no concurrent truncation)", "lexical confinement: strings.HasPrefix(filepath.Clean(...), root + separator); symbolic links under the asset root are the administrator's (not covered)", "servedBytes(name) is what the loader produced from the file when it read it (definitional; files changing on disk afterwards are outside the model)", "javascript.Minify / MinifyCSS are the documented minification (C33/C34)"},
+		Extra:       c39Extra,
+	},
 	"C27": {
 		Patterns: []string{"./..."},
 		Level:    "proof",
